@@ -166,6 +166,10 @@ func (dec *tomlDecoder) createDateTimeScalar(tomlNode *toml.Node) (*CandidateNod
 
 func (dec *tomlDecoder) createFloatScalar(tomlNode *toml.Node) (*CandidateNode, error) {
 	content := string(tomlNode.Data)
+	if content == "+nan" || content == "-nan" {
+		// TOML allows a sign on nan, strconv does not
+		content = "nan"
+	}
 	num, err := strconv.ParseFloat(content, 64)
 	return createScalarNode(num, content), err
 }
